@@ -291,30 +291,34 @@ CONSTANTS N1s,          \* values of n1 solve_problems may pass
           Pars,         \* values of parallelize
           Scalars,      \* values of `scalar`
           Np2,          \* BOOLEAN
-          Bos           \* values of use_bo
+          Bos,          \* values of use_bo
+          Uss,          \* values of use_surrogate: "F", "T", "A" (None: decided by the _has_fitted_surrogate_model flag)
+          MaxMut        \* bound on the number of state-changing public calls (0: unbounded; the read-only methods are free)
 
-VARIABLES st, todo, call, st0, env
-vars == <<st, todo, call, st0, env>>
+VARIABLES st, todo, call, st0, env, mut
+vars == <<st, todo, call, st0, env, mut>>
 
-Init == /\ st = S0 /\ todo = <<>> /\ call = A0 /\ st0 = S0
+Init == /\ st = S0 /\ todo = <<>> /\ call = A0 /\ st0 = S0 /\ mut = 0
         /\ env \in {[fix |-> Fix, par |-> p, np2 |-> Np2, scalar |-> sc] : p \in Pars, sc \in Scalars}
 
 Idle == todo = <<>>
+Mutating == {"solve_problems", "estimate_regions", "fit_posterior", "sample"}
 Begin(a) == /\ call' = a /\ todo' = Stages(a) \o <<"return">> /\ st' = Entered(st) /\ st0' = st /\ UNCHANGED env
+            /\ IF MaxMut > 0 /\ a.m \in Mutating THEN mut < MaxMut /\ mut' = mut + 1 ELSE UNCHANGED mut
 StageAct(name) ==
   /\ todo # <<>> /\ Head(todo) = name
   /\ LET s1 == Apply(env, st, call, name)
      IN st' = s1 /\ todo' = (IF s1.raised # "" THEN <<"return">> ELSE Tail(todo))
-  /\ UNCHANGED <<call, st0, env>>
+  /\ UNCHANGED <<call, st0, env, mut>>
 \* the call returns (or its exception reaches the caller); the ghosts of the call are forgotten
-Return == /\ todo = <<"return">> /\ todo' = <<>> /\ call' = A0 /\ st0' = S0 /\ st' = Entered(st) /\ UNCHANGED env
+Return == /\ todo = <<"return">> /\ todo' = <<>> /\ call' = A0 /\ st0' = S0 /\ st' = Entered(st) /\ UNCHANGED <<env, mut>>
 
 \* public methods
 SolveProblems == Idle /\ \E n \in N1s, bo \in Bos : \E slv \in (IF bo THEN {AllB(n, TRUE)} ELSE [1..n -> BOOLEAN]) :
                     Begin([A0 EXCEPT !.m = "solve_problems", !.n = n, !.bo = bo, !.slv = slv])
 \* (below matters only for solved problems: acc[i] = sld[i] /\ below[i]; the other values are not enumerated)
 EstimateRegions == Idle /\ \E below \in {b \in [1..st.n1 -> BOOLEAN] : \A i \in 1..st.n1 : b[i] => At(st.sld, i)},
-                              us \in {"F", "T", "A"}, fit \in BOOLEAN :
+                              us \in Uss, fit \in BOOLEAN :
                     Begin([A0 EXCEPT !.m = "estimate_regions", !.below = below, !.us = us, !.fit = fit])
 FitPosterior == Idle /\ \E n \in FitN1s, bo \in Bos, fit \in BOOLEAN, auto \in BOOLEAN :
                   \E slv \in (IF bo THEN {AllB(n, TRUE)} ELSE [1..n -> BOOLEAN]) :
